@@ -8,7 +8,7 @@
    transformation() followed by conversion_surface_params(). *)
 From Coq Require Import List ZArith Bool Reals Lra.
 From T4V Require Import Base.Scalar C04.Vec C04.Model C04.Spec C04.ProofsFrame C04.ProofsConvert
-  C04.ProofsQuad C04.ProofsSurf C04.ProofsMatrix C04.ProofsCard C04.ProofsTorus.
+  C04.ProofsQuad C04.ProofsSurf C04.ProofsMatrix C04.ProofsCard C04.ProofsTorus C04.ProofsMatrix5.
 Import ListNotations.
 Open Scope R_scope.
 
@@ -121,6 +121,16 @@ Theorem C04_normalize_matrix_3_cols_reproduces : forall (i : nat) (c : R3), (i <
   exists b, normalize_matrix RS (mlist pat) = Ok (mlist b) /\ rotation b /\ agrees pat b.
 Proof. exact normalize_matrix_3_cols. Qed.
 Print Assumptions C04_normalize_matrix_3_cols_reproduces.
+
+(* five entries: unit row ir and unit column ic (sharing their common entry),
+   J elsewhere: Eulerian completion, for all nine positions, sin(beta) = 0 included *)
+Theorem C04_normalize_matrix_5_reproduces : forall (ir ic : nat) (row col : R3),
+  (ir < 3)%nat -> (ic < 3)%nat ->
+  norm2 row = 1 -> norm2 col = 1 -> vget ic row = vget ir col ->
+  exists b, normalize_matrix RS (mlist (pat5 ir ic row col)) = Ok (mlist b) /\ rotation b /\
+            agrees (pat5 ir ic row col) b.
+Proof. exact normalize_matrix_5. Qed.
+Print Assumptions C04_normalize_matrix_5_reproduces.
 
 (* genuine defect (open finding matrix3_row_minus_ex): the guard vx r <> -1 cannot be dropped *)
 Theorem C04_matrix3_row_minus_ex_refuted :
